@@ -242,7 +242,8 @@ def rule_priority_insert(ctx, rule):
     for nd in walk_local(f.node):
         if isinstance(nd, ast.Call) and isinstance(nd.func, ast.Attribute) and nd.func.attr == 'append' and \
                 isinstance(nd.func.value, ast.Name) and len(nd.args) == 1:
-            a = nd.args[0]
+            from ..astutil import resolve_temp
+            a = resolve_temp(f.node, nd.args[0])
             is_deq = isinstance(a, ast.Call) and isinstance(a.func, ast.Attribute) and \
                 a.func.attr in ('get_nowait',) and isinstance(a.func.value, ast.Attribute) and a.func.value.attr == q
             lists.setdefault(nd.func.value.id, []).append(is_deq)
